@@ -3,6 +3,8 @@
    generated from /repo on this run (VP.Compute / VP.Tables). *)
 From Coq Require Import Reals Bool.
 From VP Require Import Lib RLib BoolLaws Compute Tables C12_eq C12_ne C12_close.
+From VP Require ObjModel ObjNames NbModel NbApi NbChecks.
+Import ObjNames List.ListNotations.
 Open Scope R_scope.
 
 Section AnyCarrier.   (* any carrier whose comparisons obey BoolLaws: reals, NaN-free floats *)
@@ -111,6 +113,15 @@ Proof.
 Qed.
 
 (* non-vacuity: the premises are met by concrete values and the comparison really discriminates *)
+
+(* the same laws hold in numba-compiled code: for these operations every program point of the numba-supported API has the
+   same outcome (class, coordinate system, field expressions over the generated compute definitions) through the
+   Numba overload layer as through the interpreter (T5 table, gen/NbApi*.v; exceptions: the C07 known findings) *)
+Theorem C12_compiled_comparisons_are_the_interpreted_ones :
+  VP.NbChecks.agree_on [N_equal; N_op_eq; N_not_equal; N_op_ne; N_isclose; N_isclose_tol]%list = true /\
+  Nat.ltb 100 (VP.NbChecks.count_on [N_equal; N_op_eq; N_not_equal; N_op_ne; N_isclose; N_isclose_tol]%list) = true.
+Proof. vm_cast_no_check (conj (eq_refl true) (eq_refl true)). Qed.
+
 Example C12_nonvacuous :
   rb (T_planar_equal XY XY 1 2 1 2) = Some true /\ rb (T_planar_equal XY XY 1 2 1 3) = Some false /\
   rb (T_planar_isclose XY XY (1/100000) (1/100000000) false 1 2 1 2) = Some true.
